@@ -15,6 +15,7 @@ import (
 	"regexp"
 	"sort"
 	"strconv"
+	"strings"
 	"sync"
 	"testing"
 	"time"
@@ -86,6 +87,7 @@ func Main(m *testing.M, property string) { MainFunc(m, property, nil) }
 func MainFunc(m *testing.M, property string, adjust func(code int) int) {
 	c.Property = property
 	c.loadFindings()
+	probeOnce.Do(startProbe)
 	code := m.Run()
 	if adjust != nil {
 		code = adjust(code)
@@ -283,6 +285,15 @@ func IsKnown(signature string) (string, bool) {
 func Fail(tb TB, kind, signature string, cas any, format string, args ...any) bool {
 	tb.Helper()
 	msg := fmt.Sprintf(format, args...)
+	for _, p := range timedPrefixes {
+		if strings.HasPrefix(signature, p) {
+			if late := MachineLate(90 * time.Second); late > 200*time.Millisecond {
+				// a rule that bounds a latency by a few seconds, on a machine that itself overslept by that much
+				Inconclusive("late_machine/" + p)
+				return false
+			}
+		}
+	}
 	for _, f := range c.findings {
 		if f.re.MatchString(signature) {
 			c.mu.Lock()
@@ -301,6 +312,52 @@ func Fail(tb TB, kind, signature string, cas any, format string, args ...any) bo
 	Flush()
 	tb.Fatalf("ORACLE-FAIL sig=%s replay=%s: %s", signature, path, msg)
 	return true
+}
+
+// Timed declares signature prefixes of rules that bound a latency by a few seconds.  Fail turns such a failure into an
+// inconclusive observation when the process itself was recently late by more than 200 ms (see MachineLate).
+func Timed(prefixes ...string) { timedPrefixes = append(timedPrefixes, prefixes...) }
+
+var timedPrefixes []string
+
+var (
+	lateMu    sync.Mutex
+	lateAt    []time.Time
+	lateBy    []time.Duration
+	probeOnce sync.Once
+)
+
+// MachineLate reports the longest oversleep of the process' probe goroutine (which sleeps 1 ms in a loop) during the
+// last `window`: how late the machine itself was.
+func MachineLate(window time.Duration) time.Duration {
+	probeOnce.Do(startProbe)
+	lateMu.Lock()
+	defer lateMu.Unlock()
+	var max time.Duration
+	cut := time.Now().Add(-window)
+	for i, at := range lateAt {
+		if at.After(cut) && lateBy[i] > max {
+			max = lateBy[i]
+		}
+	}
+	return max
+}
+
+func startProbe() {
+	go func() {
+		for {
+			t0 := time.Now()
+			time.Sleep(time.Millisecond)
+			if d := time.Since(t0) - time.Millisecond; d > 50*time.Millisecond {
+				lateMu.Lock()
+				lateAt, lateBy = append(lateAt, time.Now()), append(lateBy, d)
+				if len(lateAt) > 4096 {
+					lateAt, lateBy = lateAt[2048:], lateBy[2048:]
+				}
+				lateMu.Unlock()
+			}
+		}
+	}()
 }
 
 // InFlight records the case about to be evaluated, so that a crash of the whole
